@@ -30,7 +30,7 @@ import (
 	"verif/harness/internal/vrun"
 )
 
-const musigInvariants = "INVARIANTS TypeOK HonestPartialsVerify CorruptedPartialRejected AggregateVerifies CorruptedAggregateFails EvaluateSound SessionFinalSound AccumulatorsSound\nPROPERTY SignOnce\n"
+const musigInvariants = "INVARIANTS TypeOK HonestPartialsVerify CorruptedPartialRejected AggregateVerifies CorruptedAggregateFails EvaluateSound SessionFinalSound AccumulatorsSound AggregateIsFunction\nPROPERTY SignOnce\n"
 
 type musigCfg struct {
 	name                                         string
@@ -87,7 +87,7 @@ func (c musigCfg) text() string {
 	}
 	inv := musigInvariants
 	if c.lightInv {
-		inv = "INVARIANTS TypeOK EvaluateSound\n"
+		inv = "INVARIANTS TypeOK EvaluateSound AggregateIsFunction\n"
 	}
 	return fmt.Sprintf("CONSTANTS\n Q = %d\n MaxSigners = %d\n MaxTweaks = %d\n KeyVals = %s\n CoefVals = %s\n TweakVals = %s\n Nonce1Vals = %s\n Nonce2Vals = %s\n BVals = %s\n EVals = %s\n SortVals = %s\n Apis = %s\n TapApis = %s\n Faults = %s\n MaxNoise = %d\nINIT Init\nNEXT Next\n%s",
 		c.q, c.signers, c.tweaks, intSet(c.keys), intSet(c.coefs), intSet(c.tvals), intSet(c.n1), intSet(c.n2), intSet(c.bvals), intSet(c.evals),
@@ -198,7 +198,7 @@ func runMusig(ctx *vrun.Ctx) error {
 		}
 	}
 	for _, a := range []string{"ChooseKeys", "ChooseVals", "ChooseCoef", "AddTweak", "Setup", "GenNonce", "NoncesDone", "ChooseHash", "Evaluate",
-		"RegisterPubNonce", "RegisterCombinedNonce", "Sign", "Verify", "VerifyCorrupted", "CombineSig", "CombineCorrupted"} {
+		"RegisterPubNonce", "RegisterCombinedNonce", "Sign", "Verify", "VerifyCorrupted", "CombineSig", "CombineCorrupted", "AggregateKeysAgain"} {
 		if acts[a] == 0 {
 			return fmt.Errorf("musig2: vacuity: action %s never taken in the simulated behaviours", a)
 		}
@@ -227,7 +227,7 @@ func runMusig(ctx *vrun.Ctx) error {
 	for _, need := range []string{"replayed", "api:session", "api:raw", "setup:ok", "setup:fail:tweak-infinity", "nonce:generic", "nonce:bothinf", "nonce:r1inf", "nonce:r2inf",
 		"shape:dup", "shape:neg", "sort:true", "tweak:xonly", "tweak:plain", "tweak:zero", "tapi:taproot", "tapi:bip86",
 		"call:Sign/ok", "call:Sign/refused:nonce-reuse", "call:CombineSig/final-valid", "call:CombineCorrupted/final-invalid", "call:VerifyCorrupted/false", "call:Verify/true",
-		"call:RegisterPubNonce/have-all", "call:RegisterCombinedNonce/ok", "call:Evaluate", "signers:1", "signers:2", "signers:3", "final:bothinf-invalid"} {
+		"call:RegisterPubNonce/have-all", "call:RegisterCombinedNonce/ok", "call:Evaluate", "call:AggregateKeysAgain/same", "signers:1", "signers:2", "signers:3", "final:bothinf-invalid"} {
 		if stats[need] == 0 {
 			return fmt.Errorf("musig2: vacuity: the replayed behaviours contain no %q (stats %v)", need, stats)
 		}
@@ -280,6 +280,12 @@ type mrun struct {
 	replay  map[string]any
 	nshape  string
 	evalCnt int64
+	// option VALUES are built once per behaviour and reused for every call:
+	// a call must not consume or alter them
+	aggOptV  []musig2.KeyAggOption
+	ctxOptV  []musig2.ContextOption
+	signOptV []musig2.SignOption
+	combOptV []musig2.CombineOption
 }
 
 func (m *mrun) viol(key, what string) {
@@ -296,6 +302,13 @@ func (m *mrun) pubs() []*btcec.PublicKey {
 }
 
 func (m *mrun) ctxTweakOpt() []musig2.ContextOption {
+	if m.ctxOptV == nil {
+		m.ctxOptV = append([]musig2.ContextOption{}, m.mkCtxTweakOpt()...)
+	}
+	return append([]musig2.ContextOption{}, m.ctxOptV...)
+}
+
+func (m *mrun) mkCtxTweakOpt() []musig2.ContextOption {
 	switch {
 	case m.tapi == "taproot":
 		return []musig2.ContextOption{musig2.WithTaprootTweakCtx(m.root)}
@@ -308,6 +321,13 @@ func (m *mrun) ctxTweakOpt() []musig2.ContextOption {
 }
 
 func (m *mrun) keyAggOpts() []musig2.KeyAggOption {
+	if m.aggOptV == nil {
+		m.aggOptV = append([]musig2.KeyAggOption{}, m.mkKeyAggOpts()...)
+	}
+	return append([]musig2.KeyAggOption{}, m.aggOptV...)
+}
+
+func (m *mrun) mkKeyAggOpts() []musig2.KeyAggOption {
 	switch {
 	case m.tapi == "taproot":
 		return []musig2.KeyAggOption{musig2.WithTaprootKeyTweak(m.root)}
@@ -320,6 +340,13 @@ func (m *mrun) keyAggOpts() []musig2.KeyAggOption {
 }
 
 func (m *mrun) signOpts() []musig2.SignOption {
+	if m.signOptV == nil {
+		m.signOptV = append([]musig2.SignOption{}, m.mkSignOpts()...)
+	}
+	return append([]musig2.SignOption{}, m.signOptV...)
+}
+
+func (m *mrun) mkSignOpts() []musig2.SignOption {
 	var o []musig2.SignOption
 	if m.sort {
 		o = append(o, musig2.WithSortedKeys())
@@ -336,6 +363,13 @@ func (m *mrun) signOpts() []musig2.SignOption {
 }
 
 func (m *mrun) combineOpts() []musig2.CombineOption {
+	if m.combOptV == nil {
+		m.combOptV = append([]musig2.CombineOption{}, m.mkCombineOpts()...)
+	}
+	return append([]musig2.CombineOption{}, m.combOptV...)
+}
+
+func (m *mrun) mkCombineOpts() []musig2.CombineOption {
 	switch {
 	case m.tapi == "taproot":
 		return []musig2.CombineOption{musig2.WithTaprootTweakedCombine(m.msg, m.pubs(), m.root, m.sort)}
@@ -361,10 +395,16 @@ func replayMusig(ctx *vrun.Ctx, beh []tlc.TraceState, idx int) (st map[string]in
 	fin := beh[len(beh)-1].State
 	var setup, noncesDone, hash, vals tla.Value
 	var calls []tla.Value
+	again := 0
 	haveSetup := false
 	for _, s := range beh {
 		l := s.State["last"]
 		switch l.F("act").Str() {
+		case "AggregateKeysAgain":
+			if l.F("res").Str() != "same" {
+				return st, fmt.Errorf("musig2: the specification's AggregateAgain reports %q", l.F("res").Str())
+			}
+			again++
 		case "ChooseVals":
 			vals = l
 		case "Setup":
@@ -583,6 +623,28 @@ func replayMusig(ctx *vrun.Ctx, beh []tlc.TraceState, idx int) (st map[string]in
 	}
 	if !m.checkAgg(aggKey, gacc, tacc) {
 		return st, nil
+	}
+	// AggregateKeys is a function of its arguments: asked again with the very same
+	// option values (once more in any case, and once per AggregateAgain step of the
+	// behaviour) it returns the same key and accumulators
+	for i := 0; i <= again; i++ {
+		k2, g2, t2, err := musig2.AggregateKeys(m.pubs(), m.sort, m.keyAggOpts()...)
+		m.evalCnt++
+		if err != nil {
+			m.viol("musig:AggregateKeys:not-a-function", fmt.Sprintf("AggregateKeys call #%d with the same option values fails: %v", i+2, err))
+			return st, nil
+		}
+		if !bytes.Equal(k2.FinalKey.SerializeCompressed(), aggKey.FinalKey.SerializeCompressed()) || !g2.Equals(gacc) || !t2.Equals(tacc) {
+			m.viol("musig:AggregateKeys:not-a-function", fmt.Sprintf("AggregateKeys call #%d with the very same keys and option values returns %x, the first call returned %x (BIP327: %x)",
+				i+2, k2.FinalKey.SerializeCompressed(), aggKey.FinalKey.SerializeCompressed(), m.kc.Q.compressed()))
+			return st, nil
+		}
+		if !m.checkAgg(k2, g2, t2) {
+			return st, nil
+		}
+	}
+	if again > 0 {
+		st["call:AggregateKeysAgain/same"] += again
 	}
 	// --- nonce shape
 	if !noncesDone.Has("res") {
